@@ -47,6 +47,9 @@ _RULES = {
     "BUILTIN-SET": rules_more.rule_builtin_set,
     "RELEX-WINDOW": rules_more.rule_relex_window,
     "UPDATE-ORDER": rules_more.rule_update_order,
+    "NO-MERGE": rules_more.rule_no_merge,
+    "COMMENT-LEX": rules_units.rule_comment_lex,
+    "STRIP-REBUILD": rules_more.rule_strip_rebuild,
     "DIAG-FLAG": rules_more.rule_diag_flag,
     "IDENT-RANGE": rules_more.rule_ident_range,
 }
